@@ -1,8 +1,107 @@
-import BrushVerif.Model.Wire
-/-! Driver for C12 (stub until the property's model exists). -/
+import BrushVerif.Model.Subshell
+/-! Driver for C12: `C12 <ctx> <root> <parent mutators…> -- <subshell mutators…>` →
+`st=<$?> sub=<text> par=<text> diff=<changed components|-> w0=<umask>/<nofile> w1=<…> cv=<text>`. -/
 namespace BrushVerif.Drv.C12
-open BrushVerif.Wire
+open BrushVerif.Wire BrushVerif.Subshell
 
-def handle (_toks : List Str) : Str := "unimplemented".toList
+def parseOct? (s : Str) : Option Nat :=
+  if s.isEmpty then none
+  else s.foldl (fun acc c => match acc with
+    | none => none
+    | some n => if '0' ≤ c ∧ c ≤ '7' then some (n * 8 + (c.toNat - 48)) else none) (some 0)
+
+def parseBool? (s : Str) : Option Bool :=
+  if s = ['1'] then some true else if s = ['0'] then some false else none
+
+def trapAct (s : Str) : Option Str :=
+  if s = "colon".toList then some [':']
+  else if s = "true".toList then some "true".toList
+  else if s = "ign".toList then some []
+  else if s = "reset".toList then some ['-']
+  else none
+
+def aliasVal (s : Str) : Str := if s = "colon".toList then [':'] else s
+
+def parseMut (root : Str) (t : Str) : Option Mut :=
+  match splitOnChar ':' t with
+  | [k, a, b] =>
+    if k = "as".toList then some (.assign a b)
+    else if k = "ro".toList then some (.readonly a b)
+    else if k = "fn".toList then some (.defun a b)
+    else if k = "so".toList then (parseBool? b).map (.seto a)
+    else if k = "sh".toList then (parseBool? b).map (.shopt a)
+    else if k = "al".toList then some (.alias a (aliasVal b))
+    else if k = "tr".toList then (trapAct b).map (.trap a)
+    else if k = "fd".toList then
+      match parseNat? a with
+      | some fd => if b = ['c'] then some (.fdclose fd) else if b = ['o'] ∨ b = ['i'] then some (.fdopen fd) else none
+      | none => none
+    else none
+  | [k, a] =>
+    if k = "ex".toList then some (.export a)
+    else if k = "un".toList then some (.unset a)
+    else if k = "uf".toList then some (.unsetf a)
+    else if k = "ua".toList then some (.unalias a)
+    else if k = "cd".toList then
+      some (.cd (match a with | 'R' :: r => root ++ r | _ => a))
+    else if k = "um".toList then (parseOct? a).map .umask
+    else if k = "ul".toList then (parseNat? a).map .ulimit
+    else if k = "sa".toList then
+      some (.setargs ((splitOnChar ',' a).filter (fun x => !x.isEmpty ∧ x ≠ ['-'])))
+    else if k = "xi".toList then (parseNat? a).map .exit
+    else if k = "ec".toList then some (.echo a)
+    else none
+  | [k] =>
+    if k = "sf".toList then some .shift
+    else if k = "fa".toList then some .false_
+    else if k = "tu".toList then some .true_
+    else none
+  | _ => none
+
+def parseCtx (s : Str) : Option Ctx :=
+  if s = "paren".toList then some .paren else if s = "cmdsub".toList then some .cmdsub
+  else if s = "backq".toList then some .backq else if s = "pipe".toList then some .pipe
+  else if s = "stages".toList then some .stages else if s = "bg".toList then some .bg
+  else if s = "procsub".toList then some .procsub else if s = "coproc".toList then some .coproc
+  else none
+
+def textLines (ls : List Str) : Str := ls.flatMap (fun l => l ++ ['\n'])
+
+def compChanged (c : Comp) (a b : ShellPart) : Bool :=
+  match c with
+  | .env => a.vars != b.vars | .funcs => a.funcs != b.funcs
+  | .options => a.setopts != b.setopts || a.shopts != b.shopts
+  | .aliases => a.aliases != b.aliases | .traps => a.traps != b.traps
+  | .workingDir => a.cwd != b.cwd | .args => a.args != b.args | .openFiles => a.fds != b.fds
+
+def showWorld (w : World) : Str := octDigits 4 w.umask ++ ['/'] ++ natToStr w.nofile
+
+def splitAtSep : List Str → List Str × List Str
+  | [] => ([], [])
+  | t :: r => if t = ['-', '-'] then ([], r) else let p := splitAtSep r; (t :: p.1, p.2)
+
+def handle (toks : List Str) : Str :=
+  match toks with
+  | ctxTok :: rootTok :: rest =>
+    let root := unesc rootTok
+    let rootP := splitPath root
+    let (pt, st) := splitAtSep rest
+    match parseCtx ctxTok, pt.mapM (parseMut root), st.mapM (parseMut root) with
+    | some ctx, some pm, some sm =>
+      let r0 := runMuts rootP pm { sh := defaultShell rootP, world := { umask := 18, nofile := 1024 } }
+      if r0.exited then "bad-parent-exit".toList
+      else
+        let a := exec rootP ctx sm r0.sh r0.world
+        let changed := Comp.all.filter (fun c => compChanged c (prepare ctx r0.sh) a.shell)
+        let isCv := ctx = .cmdsub || ctx = .backq
+        "st=".toList ++ (if a.aborted then "none".toList else natToStr a.status) ++
+        " sub=".toList ++ esc (if isCv then [] else textLines a.out) ++
+        " par=".toList ++ esc (textLines (dump a.shell a.world)) ++
+        " diff=".toList ++ (if changed.isEmpty then ['-'] else joinWith [','] (changed.map (fun c => c.field.toList))) ++
+        " w0=".toList ++ showWorld r0.world ++
+        " w1=".toList ++ showWorld a.world ++
+        " cv=".toList ++ esc (if isCv then joinWith ['\n'] a.out else [])
+    | _, _, _ => "bad-op".toList
+  | _ => "bad-request".toList
 
 end BrushVerif.Drv.C12
